@@ -169,7 +169,7 @@ def check(case):
     return Outcome(labels, has_missing or has_unseen or len(fit_cols) >= 2)
 
 
-ALPHA = ["a", "b", "c", "d", "aa", "B", "z y", "é"]
+ALPHA = ["a", "b", "c", "d", "aa", "B", "z y", "é", ""]          # the empty string is a category like any other
 UNSEEN = ["u1", "u2", "A", "ab"]
 
 
